@@ -802,6 +802,13 @@ class Function(Ring):
             else:
                 args.append(fa)
 
+        # when a recorded buffer write is re-evaluated, the values that are
+        # about to be overwritten have to be saved again: the ones saved at
+        # recording time belong to the recording point (and its D, P)
+        if Fout is not None and setitem is None and is_set(Fout.setitem):
+            sl = Fout.setitem[0]
+            setitem = (sl, operator.getitem(args[0], sl).copy())
+
         # STEP 2: call the function
         # print 'func=',func
         # print 'args=',args
